@@ -116,7 +116,7 @@ namespace cs
                 violate("C20", "element_lifecycle", "%s (n=%ld, failure at %ld): %s", what, n, k,
                         ct.problem.c_str());
             if (!c.env->log.problem.empty())
-                violate("C20,C09", "release_mismatch", "%s (n=%ld, failure at %ld): %s", what, n, k,
+                violate("C20,C09,C10", "release_mismatch", "%s (n=%ld, failure at %ld): %s", what, n, k,
                         c.env->log.problem.c_str());
             if (threw)
             {
@@ -127,7 +127,7 @@ namespace cs
                             what, n, k, long(ct.alive.size()) - long(alive0));
                 // (a pool may have grown while serving the request: then more is free than before, never less)
                 if (alloc == 2 ? footprint(c, alloc) < foot0 : footprint(c, alloc) != foot0)
-                    violate("C20,C09", "memory_leaked", "%s (n=%ld, failure at %ld): the memory obtained for the "
+                    violate("C20,C09,C10", "memory_leaked", "%s (n=%ld, failure at %ld): the memory obtained for the "
                                                     "object was not given back",
                             what, n, k);
             }
@@ -193,6 +193,53 @@ namespace cs
                            auto sp = std::make_shared<decltype(bp)>(std::move(bp));
                            c.owners.push_back({[sp]() mutable { sp->reset(); }, 1, alloc});
                        });
+        }
+
+        // the deallocator classes used directly (they release, they do not destroy: trivially destructible types)
+        struct PBase
+        {
+            int tag;
+        };
+        template <std::size_t Pad>
+        struct PDerived : PBase
+        {
+            unsigned char pad[Pad];
+        };
+        template <std::size_t Pad, class Alloc>
+        void op_dealloc_direct(Ctx& c, Alloc& a, int form, std::size_t n)
+        {
+            using D      = PDerived<Pad>;
+            using traits = fm::allocator_traits<Alloc>;
+            c.env->log.begin_op(0);
+            ++c.cases;
+            if (form == 0)
+            {
+                // node of D, owned through allocator_deallocator<D>
+                auto mem = traits::allocate_node(a, sizeof(D), alignof(D));
+                std::unique_ptr<D, fm::allocator_deallocator<D, Alloc>> p(::new (mem) D, {a});
+                auto sp = std::make_shared<decltype(p)>(std::move(p));
+                c.owners.push_back({[sp]() mutable { sp->reset(); }, 0, 0});
+            }
+            else if (form == 1)
+            {
+                // array of n D, owned through allocator_deallocator<D[]>
+                auto mem = traits::allocate_array(a, n, sizeof(D), alignof(D));
+                std::unique_ptr<D[], fm::allocator_deallocator<D[], Alloc>> p(static_cast<D*>(mem), {a, n});
+                auto sp = std::make_shared<decltype(p)>(std::move(p));
+                c.owners.push_back({[sp]() mutable { sp->reset(); }, 0, 0});
+            }
+            else
+            {
+                // node of D, converted to a pointer to its base with allocator_polymorphic_deallocator<PBase>
+                auto mem = traits::allocate_node(a, sizeof(D), alignof(D));
+                std::unique_ptr<D, fm::allocator_deallocator<D, Alloc>> p(::new (mem) D, {a});
+                std::unique_ptr<PBase, fm::allocator_polymorphic_deallocator<PBase, Alloc>> bp(std::move(p));
+                auto sp = std::make_shared<decltype(bp)>(std::move(bp));
+                c.owners.push_back({[sp]() mutable { sp->reset(); }, 0, 0});
+            }
+            if (!c.env->log.problem.empty())
+                violate("C09,C10", "release_mismatch", "deallocator class used directly: %s", c.env->log.problem.c_str());
+            stats().hit("reach.deallocator_used_directly");
         }
 
         template <class T>
@@ -270,9 +317,9 @@ namespace cs
             if (!ct.problem.empty())
                 violate("C20", "element_lifecycle", "on destruction: %s", ct.problem.c_str());
             if (!c.env->log.problem.empty())
-                violate("C09,C20", "release_mismatch", "on destruction: %s", c.env->log.problem.c_str());
+                violate("C09,C20,C10", "release_mismatch", "on destruction: %s", c.env->log.problem.c_str());
             if ((o.alloc == 0 || o.alloc == 1 || o.alloc == 4) && c.env->leaf[0].live.size() + 1 != live0)
-                violate("C09,C20", "release_count", "destroying the owner released %ld block(s) to the allocator",
+                violate("C09,C20,C10", "release_count", "destroying the owner released %ld block(s) to the allocator",
                         long(live0) - long(c.env->leaf[0].live.size()));
             c.hash->add(0x5D);
         }
@@ -314,6 +361,22 @@ namespace cs
                     else
                         op_base<24>(c, env.la[0], 0, k);
                 }
+                else if (o.kind == "dl")
+                {
+                    int         form = int(o.arg(0)) % 3;
+                    std::size_t n    = 1 + std::size_t(o.arg(2)) % 9;
+                    switch (o.arg(1) % 3)
+                    {
+                    case 0:
+                        op_dealloc_direct<4>(c, env.la[0], form, n);
+                        break;
+                    case 1:
+                        op_dealloc_direct<100>(c, env.la[0], form, n);
+                        break;
+                    default:
+                        op_dealloc_direct<70000>(c, env.la[0], form, form == 1 ? 1 + n % 3 : n);
+                    }
+                }
                 else if (o.kind == "drop")
                 {
                     if (!c.owners.empty())
@@ -349,7 +412,7 @@ namespace cs
             if (!ctl().alive.empty())
                 violate("C20", "elements_leaked", "%zu element(s) alive at the end", ctl().alive.size());
             if (!env.leaf[0].live.empty())
-                violate("C09,C20", "leaf_memory_lost", "%zu leaf allocation(s) outstanding at the end",
+                violate("C09,C20,C10", "leaf_memory_lost", "%zu leaf allocation(s) outstanding at the end",
                         env.leaf[0].live.size());
             c.pool.reset();
             c.stack.reset();
